@@ -13,8 +13,8 @@ type c04g struct {
 	r *rand.Rand
 }
 
-func (g *c04g) pick(l ...any) any       { return l[g.r.Intn(len(l))] }
-func (g *c04g) str(l ...string) string  { return l[g.r.Intn(len(l))] }
+func (g *c04g) pick(l ...any) any        { return l[g.r.Intn(len(l))] }
+func (g *c04g) str(l ...string) string   { return l[g.r.Intn(len(l))] }
 func (g *c04g) chance(num, den int) bool { return g.r.Intn(den) < num }
 
 var c04Keys = []string{"A", "B", "C", "D", "x-k", "a.b", "FOO"}
